@@ -588,7 +588,7 @@ func (m *mcase) subsites() {
 	siteFile := r.Chance(0.5)
 	if siteFile {
 		f := filepath.Join(m.dir, "sites.txt")
-		os.WriteFile(f, []byte(strings.Join(itoas(sites), "\n")+"\n"), 0644)
+		os.WriteFile(f, []byte(strings.Join(siteFileLines(r, sites), "\n")+"\n"), 0644)
 		args = append(args, "--sitefile", f)
 	} else {
 		args = append(args, itoas(sites)...)
